@@ -13,7 +13,7 @@ from ..oracle.stft_ref import rebuild_full
 
 OPTIMIZED_SHARDS = 1  # shards run once more in an interpreter started with -O (vf/run.py)
 LEVEL = "exploration"
-TECHNIQUE = "runtime monitor on get_truncated_response: documented rebuild recipe vs get_frequency_response (full / half), index-range, symmetry and finiteness invariants"
+TECHNIQUE = "runtime monitor on get_truncated_response: documented rebuild recipe vs get_frequency_response (full / half), index-range, symmetry and finiteness invariants; ambient-settings monitor (stateless calls repeated under -W error and np.errstate raise)"
 RULE = (
     "triples (bank, filter, width): banks from the C05 generator (all classes, scales, rates, flags), first/last/random filter, widths 2,3,4,5, random "
     "6-40, 40-600, 600-4000, frame lengths and their next powers of two; also widths requested by randomly built STFT computers; every seventh bank through a deep copy / pickle round trip / shallow copy, every fourth asked in turn with a counterpart bank (real / analytic twin), directed whole-period Gabor banks direct and copied; non-trivial = non-empty "
